@@ -3,6 +3,12 @@
 //! exponent, approx flag) of its result.  TLC (mc/Trace_Scalar) recomputes the exact value of
 //! every register with arbitrary-precision arithmetic written in TLA+ (spec/BigNat, spec/Dyadic)
 //! and evaluates the property's predicates.
+//!
+//! API forms: every binary operation is computed through one of its overloads in turn (`form`: owned / reference
+//! operands, `+=`-style assign forms, `Sum` / `Product`) AND through the owned form (`own`); TLC demands the two to be
+//! equal bit for bit (VariantOK) on top of the exact-ghost predicates.  The approx flag is also read / written through
+//! the public accessors (`approx()`, `set_approx()`), complex conversion runs through both `TryFrom` impls, and
+//! every sixth history works at the edge of the exponent range in which doubles exist (|log2| around 820).
 
 use crate::util::{arg_num, guarded, Tr};
 use approx::AbsDiffEq;
@@ -70,21 +76,24 @@ fn interesting_f64(r: &mut StdRng) -> f64 {
     }
 }
 
-fn dyadic_history(r: &mut StdRng, tr: &mut Tr, len: usize) -> usize {
+fn dyadic_history(r: &mut StdRng, tr: &mut Tr, len: usize, extreme: Option<i32>) -> usize {
     const NR: usize = 6;
+    // products of values near 2^+-820 leave the range of doubles after one step and make the exact ghosts wide: in
+    // such histories at most two multiplications lie behind a register
+    let maxdepth = if extreme.is_some() { 2 } else { 6 };
     let mut regs: Vec<Dyadic> = vec![Dyadic::zero(); NR];
     // number of multiplications behind each register: the exact ghost value TLC carries grows by 64 bits per
     // multiplication, so deep products are replaced by sums to keep validation linear
     let mut depth: Vec<usize> = vec![0; NR];
     tr.group();
-    tr.emit(json!({"k": "begin", "machine": "dyadic", "regs": NR}));
+    tr.emit(json!({"k": "begin", "machine": "dyadic", "regs": NR, "extreme": extreme.unwrap_or(0)}));
     let mut n = 0;
     // every third history starts with full-width mantissas: (2^32 - 1)(2^32 + 1) = 2^64 - 1 in register 1,
     // small exact integers next to it, so that additions carry out of the 64-bit mantissa
     let directed = r.random_range(0..3) == 0;
     for step in 0..len {
         let (mut a, mut b, mut t) = (r.random_range(0..NR), r.random_range(0..NR), r.random_range(0..NR));
-        let mut c = if step < NR { 0 } else { r.random_range(0..100) };
+        let mut c = if step < NR { 0 } else { r.random_range(0..116) };
         let mut forced: Option<(i64, i32)> = None;
         if directed {
             match step {
@@ -104,14 +113,20 @@ fn dyadic_history(r: &mut StdRng, tr: &mut Tr, len: usize) -> usize {
             }
         }
         let ev = if c < 14 {
-            let (v, e) = forced.unwrap_or((interesting_i64(r), r.random_range(-90..90)));
-            match guarded(|| Dyadic::new(v, e)) {
+            let (v, e) = forced.unwrap_or((interesting_i64(r), match extreme {
+                Some(x) => x + r.random_range(-20..20),
+                None if r.random_bool(0.15) => 0,
+                None => r.random_range(-90..90),
+            }));
+            // From<i64> is Dyadic::new(v, 0)
+            let via = if e == 0 && r.random_bool(0.5) { "from_i64" } else { "new" };
+            match guarded(|| if via == "new" { Dyadic::new(v, e) } else { Dyadic::from(v) }) {
                 Ok(d) => {
                     regs[t] = d;
                     depth[t] = 0;
-                    json!({"k": "d", "op": "new", "v": int_json(v), "exp": e, "r": t + 1, "res": "ok", "out": raw(&d)})
+                    json!({"k": "d", "op": "new", "via": via, "v": int_json(v), "exp": e, "r": t + 1, "res": "ok", "out": raw(&d)})
                 }
-                Err(m) => json!({"k": "d", "op": "new", "v": int_json(v), "exp": e, "r": t + 1, "res": "panic", "msg": m}),
+                Err(m) => json!({"k": "d", "op": "new", "via": via, "v": int_json(v), "exp": e, "r": t + 1, "res": "panic", "msg": m}),
             }
         } else if c < 22 {
             let f = interesting_f64(r);
@@ -121,21 +136,54 @@ fn dyadic_history(r: &mut StdRng, tr: &mut Tr, len: usize) -> usize {
             json!({"k": "d", "op": "from_f64", "f": f64_json(f), "r": t + 1, "res": "ok", "out": raw(&d)})
         } else if c < 62 {
             let mut op = if directed && step == 3 { "mul" } else if directed && (step == 4 || step == 5) { "add" } else { ["add", "sub", "mul"][r.random_range(0..3)] };
-            if op == "mul" && depth[a] + depth[b] + 1 > 6 {
+            if op == "mul" && depth[a] + depth[b] + 1 > maxdepth {
                 op = "add";
             }
             depth[t] = if op == "mul" { depth[a] + depth[b] + 1 } else { depth[a].max(depth[b]) };
             let (x, y) = (regs[a], regs[b]);
-            match guarded(|| match op {
-                "add" => x + y,
-                "sub" => x - y,
-                _ => x * y,
-            }) {
-                Ok(d) => {
-                    regs[t] = d;
-                    json!({"k": "d", "op": op, "a": a + 1, "b": b + 1, "r": t + 1, "res": "ok", "out": raw(&d)})
+            // the operator itself or its assign form (+=, -=, *=); `own` is always the operator's result
+            let form = if r.random_bool(0.5) { "own" } else { "assign" };
+            match guarded(|| {
+                let own = match op {
+                    "add" => x + y,
+                    "sub" => x - y,
+                    _ => x * y,
+                };
+                let mut z = x;
+                match (form, op) {
+                    ("own", _) => z = own,
+                    (_, "add") => z += y,
+                    (_, "sub") => z -= y,
+                    _ => z *= y,
                 }
-                Err(m) => json!({"k": "d", "op": op, "a": a + 1, "b": b + 1, "r": t + 1, "res": "panic", "msg": m}),
+                (z, own)
+            }) {
+                Ok((d, own)) => {
+                    regs[t] = d;
+                    json!({"k": "d", "op": op, "form": form, "a": a + 1, "b": b + 1, "r": t + 1, "res": "ok", "out": raw(&d), "own": raw(&own)})
+                }
+                Err(m) => json!({"k": "d", "op": op, "form": form, "a": a + 1, "b": b + 1, "r": t + 1, "res": "panic", "msg": m}),
+            }
+        } else if c >= 100 && c < 104 {
+            let d = regs[a].abs();
+            regs[t] = d;
+            depth[t] = depth[a];
+            json!({"k": "d", "op": "abs", "a": a + 1, "r": t + 1, "res": "ok", "out": raw(&d)})
+        } else if c >= 104 && c < 110 {
+            // the public accessors of the approx flag: set_approx(flag), then approx()
+            let flag = r.random_bool(0.5);
+            let mut d = regs[a];
+            d.set_approx(flag);
+            regs[t] = d;
+            depth[t] = depth[a];
+            json!({"k": "d", "op": "set_approx", "a": a + 1, "r": t + 1, "flag": flag, "res": "ok", "out": raw(&d), "pub_ap": d.approx()})
+        } else if c >= 110 && c < 113 {
+            json!({"k": "d", "op": "flags", "a": a + 1, "res": "ok", "approx": regs[a].approx(), "sign": regs[a].sign()})
+        } else if c >= 113 {
+            // Display / Debug: observation only (the property fixes no text format)
+            match guarded(|| (format!("{}", regs[a]), format!("{:?}", regs[a]))) {
+                Ok((s1, s2)) => json!({"k": "d", "op": "display", "a": a + 1, "res": "ok", "len": s1.len(), "tilde": s2.ends_with('~')}),
+                Err(m) => json!({"k": "d", "op": "display", "a": a + 1, "res": "panic", "msg": m}),
             }
         } else if c < 67 {
             let d = -regs[a];
@@ -143,12 +191,15 @@ fn dyadic_history(r: &mut StdRng, tr: &mut Tr, len: usize) -> usize {
             depth[t] = depth[a];
             json!({"k": "d", "op": "neg", "a": a + 1, "r": t + 1, "res": "ok", "out": raw(&d)})
         } else if c < 77 {
-            let o = match regs[a].cmp(&regs[b]) {
+            let ord = |o: Ordering| match o {
                 Ordering::Less => -1,
                 Ordering::Equal => 0,
                 Ordering::Greater => 1,
             };
-            json!({"k": "d", "op": "cmp", "a": a + 1, "b": b + 1, "res": "ok", "ret": o, "eq": regs[a] == regs[b]})
+            let (x, y) = (regs[a], regs[b]);
+            // Ord::cmp, and PartialOrd: partial_cmp and the four comparison operators
+            json!({"k": "d", "op": "cmp", "a": a + 1, "b": b + 1, "res": "ok", "ret": ord(x.cmp(&y)), "eq": x == y,
+                   "partial": x.partial_cmp(&y).map(ord).unwrap_or(2), "lt": x < y, "le": x <= y, "gt": x > y, "ge": x >= y})
         } else if c < 83 {
             match guarded(|| regs[a].abs_diff_eq(&regs[b], Dyadic::default_epsilon())) {
                 Ok(x) => json!({"k": "d", "op": "abs_diff_eq", "a": a + 1, "b": b + 1, "res": "ok", "ret": x}),
@@ -186,16 +237,66 @@ fn phase_of(r: &mut StdRng) -> (i64, i64) {
     (*q.numer(), *q.denom())
 }
 
-fn scalar_history(r: &mut StdRng, tr: &mut Tr, len: usize) -> usize {
+/// the six ways a binary Scalar4 operation can be written
+const FORMS: [&str; 6] = ["own_own", "ref_own", "own_ref", "ref_ref", "assign", "assign_ref"];
+
+fn binary(op: &str, form: &str, x: Scalar4, y: Scalar4) -> Scalar4 {
+    let mut z = x;
+    match (op, form) {
+        ("add", "own_own") => x + y,
+        ("add", "ref_own") => &x + y,
+        ("add", "own_ref") => x + &y,
+        ("add", "ref_ref") => &x + &y,
+        ("add", "assign") => {
+            z += y;
+            z
+        }
+        ("add", _) => {
+            z += &y;
+            z
+        }
+        ("sub", "own_own") => x - y,
+        ("sub", "ref_own") => &x - y,
+        ("sub", "own_ref") => x - &y,
+        ("sub", "ref_ref") => &x - &y,
+        ("sub", "assign") => {
+            z -= y;
+            z
+        }
+        ("sub", _) => {
+            z -= &y;
+            z
+        }
+        (_, "own_own") => x * y,
+        (_, "ref_own") => &x * y,
+        (_, "own_ref") => x * &y,
+        (_, "ref_ref") => &x * &y,
+        (_, "assign") => {
+            z *= y;
+            z
+        }
+        _ => {
+            z *= &y;
+            z
+        }
+    }
+}
+
+fn scalar_history(r: &mut StdRng, tr: &mut Tr, len: usize, extreme: Option<i32>) -> usize {
     const NR: usize = 5;
+    let maxdepth = if extreme.is_some() { 2 } else { 5 };
     let mut regs: Vec<Scalar4> = vec![Scalar4::zero(); NR];
     let mut depth: Vec<usize> = vec![0; NR];
     tr.group();
-    tr.emit(json!({"k": "begin", "machine": "scalar", "regs": NR}));
+    tr.emit(json!({"k": "begin", "machine": "scalar", "regs": NR, "extreme": extreme.unwrap_or(0)}));
     let mut n = 0;
     for step in 0..len {
         let (a, b, t) = (r.random_range(0..NR), r.random_range(0..NR), r.random_range(0..NR));
-        let c = if step < NR { r.random_range(0..20) } else { r.random_range(0..100) };
+        let c = if step < NR {
+            if r.random_bool(0.3) { r.random_range(100..106) } else { r.random_range(0..20) }
+        } else {
+            r.random_range(0..136)
+        };
         let put = |regs: &mut Vec<Scalar4>, t: usize, res: Result<Scalar4, String>, mut e: Value| -> Value {
             match res {
                 Ok(s) => {
@@ -210,13 +311,33 @@ fn scalar_history(r: &mut StdRng, tr: &mut Tr, len: usize) -> usize {
             }
             e
         };
-        if c < 20 {
+        // a result computed through an overload (`out`) and through the owned operators (`own`)
+        let put2 = |regs: &mut Vec<Scalar4>, t: usize, res: Result<(Scalar4, Scalar4), String>, mut e: Value| -> Value {
+            match res {
+                Ok((s, own)) => {
+                    regs[t] = s;
+                    e["res"] = json!("ok");
+                    e["out"] = raw4(&s);
+                    e["own"] = raw4(&own);
+                }
+                Err(m) => {
+                    e["res"] = json!("panic");
+                    e["msg"] = json!(m);
+                }
+            }
+            e
+        };
+        if c < 20 || (100..106).contains(&c) {
             depth[t] = 0;
         }
+        let pow = |r: &mut StdRng| match extreme {
+            Some(x) => x + r.random_range(-20..20),
+            None => r.random_range(-70..70),
+        };
         let ev = if c < 10 {
             let co = [interesting_i64(r) >> 34, interesting_i64(r) >> 34, r.random_range(-3..4), r.random_range(-3..4)];
             let co = if r.random_bool(0.2) { [interesting_i64(r), 0, interesting_i64(r), 0] } else { co };
-            let p = r.random_range(-70..70);
+            let p = pow(r);
             put(&mut regs, t, guarded(|| Scalar4::new(co, p)), json!({"k": "s", "op": "new", "coeffs": co.iter().map(|x| int_json(*x)).collect::<Vec<_>>(), "pow": p, "r": t + 1}))
         } else if c < 16 {
             let (pn, pd) = phase_of(r);
@@ -230,16 +351,14 @@ fn scalar_history(r: &mut StdRng, tr: &mut Tr, len: usize) -> usize {
             }
         } else if c < 55 {
             let mut op = ["add", "sub", "mul", "mul"][r.random_range(0..4)];
-            if op == "mul" && depth[a] + depth[b] + 1 > 5 {
+            if op == "mul" && depth[a] + depth[b] + 1 > maxdepth {
                 op = "sub";
             }
             depth[t] = if op == "mul" { depth[a] + depth[b] + 1 } else { depth[a].max(depth[b]) };
             let (x, y) = (regs[a], regs[b]);
-            put(&mut regs, t, guarded(|| match op {
-                "add" => x + y,
-                "sub" => x - y,
-                _ => x * y,
-            }), json!({"k": "s", "op": op, "a": a + 1, "b": b + 1, "r": t + 1}))
+            let form = FORMS[r.random_range(0..FORMS.len())];
+            put2(&mut regs, t, guarded(|| (binary(op, form, x, y), binary(op, "own_own", x, y))),
+                 json!({"k": "s", "op": op, "form": form, "a": a + 1, "b": b + 1, "r": t + 1}))
         } else if c < 60 {
             let x = regs[a];
             depth[t] = depth[a];
@@ -268,7 +387,9 @@ fn scalar_history(r: &mut StdRng, tr: &mut Tr, len: usize) -> usize {
                 put(&mut regs, t, guarded(|| Scalar4::one_plus_phase(Rational64::new(pn, pd))), json!({"k": "s", "op": "one_plus_phase", "ph": [pn, pd], "r": t + 1}))
             }
         } else if c < 84 {
-            json!({"k": "s", "op": "tests", "a": a + 1, "b": b + 1, "res": "ok", "is_zero": regs[a].is_zero(), "is_one": regs[a].is_one(), "eq": regs[a] == regs[b]})
+            // approx: the PUBLIC accessor (the raw flags TLC holds come from the hook)
+            json!({"k": "s", "op": "tests", "a": a + 1, "b": b + 1, "res": "ok", "is_zero": regs[a].is_zero(), "is_one": regs[a].is_one(), "eq": regs[a] == regs[b],
+                   "approx": regs[a].approx()})
         } else if c < 92 {
             match guarded(|| regs[a].exact_phase_and_sqrt2_pow()) {
                 Ok(Some((p, k))) => {
@@ -279,14 +400,141 @@ fn scalar_history(r: &mut StdRng, tr: &mut Tr, len: usize) -> usize {
                 Ok(None) => json!({"k": "s", "op": "exact_phase", "a": a + 1, "res": "ok", "ret": "none", "kk": 0, "pp": 0, "whole": true}),
                 Err(m) => json!({"k": "s", "op": "exact_phase", "a": a + 1, "res": "panic", "msg": m}),
             }
-        } else {
-            match guarded(|| regs[a].complex_value()) {
+        } else if c < 100 {
+            // conversion to Complex<f64>: complex_value() (= TryFrom<&Scalar4>, unwrapped) and the owned TryFrom<Scalar4>;
+            // outside the range of doubles the first panics and the second returns Err: TLC decides whether that was allowed
+            let x = regs[a];
+            let mut e = json!({"k": "s", "op": "complex_value", "a": a + 1});
+            let zero = f64_json(0.0);
+            match guarded(|| x.complex_value()) {
                 Ok(z) => {
                     // from-float round trip: Scalar4::from(complex) converted back must be the same doubles
-                    let back: Complex<f64> = Scalar4::from(z).complex_value();
-                    json!({"k": "s", "op": "complex_value", "a": a + 1, "res": "ok", "re": f64_json(z.re), "im": f64_json(z.im), "roundtrip": back == z || (z.re.is_nan() || z.im.is_nan())})
+                    let back: Result<Complex<f64>, _> = Complex::<f64>::try_from(&Scalar4::from(z));
+                    e["res"] = json!("ok");
+                    e["re"] = f64_json(z.re);
+                    e["im"] = f64_json(z.im);
+                    e["roundtrip"] = json!(back == Ok(z) || (z.re.is_nan() || z.im.is_nan()));
                 }
-                Err(m) => json!({"k": "s", "op": "complex_value", "a": a + 1, "res": "panic", "msg": m}),
+                Err(m) => {
+                    e["res"] = json!("panic");
+                    e["msg"] = json!(m);
+                    e["re"] = zero.clone();
+                    e["im"] = zero.clone();
+                    e["roundtrip"] = json!(false);
+                }
+            }
+            match guarded(|| Complex::<f64>::try_from(x)) {
+                Ok(Ok(z)) => {
+                    e["owned"] = json!("ok");
+                    e["re2"] = f64_json(z.re);
+                    e["im2"] = f64_json(z.im);
+                }
+                Ok(Err(_)) => {
+                    e["owned"] = json!("range");
+                    e["re2"] = zero.clone();
+                    e["im2"] = zero.clone();
+                }
+                Err(_) => {
+                    e["owned"] = json!("panic");
+                    e["re2"] = zero.clone();
+                    e["im2"] = zero.clone();
+                }
+            }
+            e
+        } else if c < 106 {
+            // the remaining constructors with caller-chosen values
+            match r.random_range(0..9) {
+                0 => {
+                    let v = interesting_i64(r);
+                    put(&mut regs, t, guarded(|| Scalar4::from(v)), json!({"k": "s", "op": "from_i64", "coeffs": [int_json(v)], "r": t + 1}))
+                }
+                1 => {
+                    let co = [interesting_i64(r), r.random_range(-3..4), interesting_i64(r) >> 20, interesting_i64(r) >> 40];
+                    put(&mut regs, t, guarded(|| Scalar4::from(co)), json!({"k": "s", "op": "from_i64x4", "coeffs": co.iter().map(|x| int_json(*x)).collect::<Vec<_>>(), "r": t + 1}))
+                }
+                2 => {
+                    let f = interesting_f64(r);
+                    put(&mut regs, t, guarded(|| Scalar4::from(f)), json!({"k": "s", "op": "from_f64", "f": [f64_json(f)], "r": t + 1}))
+                }
+                3 => {
+                    let fs = [interesting_f64(r), interesting_f64(r), interesting_f64(r), interesting_f64(r)];
+                    put(&mut regs, t, guarded(|| Scalar4::from(fs)), json!({"k": "s", "op": "from_f64x4", "f": fs.iter().map(|x| f64_json(*x)).collect::<Vec<_>>(), "r": t + 1}))
+                }
+                4 => put(&mut regs, t, guarded(Scalar4::default), json!({"k": "s", "op": "default", "r": t + 1})),
+                5 => put(&mut regs, t, guarded(Scalar4::minus_one), json!({"k": "s", "op": "minus_one", "r": t + 1})),
+                6 => put(&mut regs, t, guarded(Scalar4::sqrt2), json!({"k": "s", "op": "sqrt2_pow", "via": "sqrt2", "p": 1, "r": t + 1})),
+                7 => put(&mut regs, t, guarded(Scalar4::one_over_sqrt2), json!({"k": "s", "op": "sqrt2_pow", "via": "one_over_sqrt2", "p": -1, "r": t + 1})),
+                _ => {
+                    let p = if extreme.is_some() { 2 * pow(r) + r.random_range(0..2) } else { r.random_range(-140..140) };
+                    put(&mut regs, t, guarded(|| Scalar4::sqrt2_pow(p)), json!({"k": "s", "op": "sqrt2_pow", "via": "sqrt2_pow", "p": p, "r": t + 1}))
+                }
+            }
+        } else if c < 112 {
+            // Sum / Product over 0..=4 registers; `own`: the same fold written with the owned operators
+            let k = r.random_range(0..5usize);
+            let ids: Vec<usize> = (0..k).map(|_| r.random_range(0..NR)).collect();
+            let dsum: usize = ids.iter().map(|i| depth[*i]).sum::<usize>() + k.saturating_sub(1);
+            let op = if r.random_bool(0.5) && dsum <= maxdepth { "product" } else { "sum" };
+            depth[t] = if op == "product" { dsum } else { ids.iter().map(|i| depth[*i]).max().unwrap_or(0) };
+            let xs: Vec<Scalar4> = ids.iter().map(|i| regs[*i]).collect();
+            put2(&mut regs, t, guarded(|| {
+                if op == "sum" {
+                    let mut acc = Scalar4::zero();
+                    for x in &xs {
+                        acc = acc + *x;
+                    }
+                    (xs.iter().copied().sum::<Scalar4>(), acc)
+                } else {
+                    let mut acc = Scalar4::one();
+                    for x in &xs {
+                        acc = acc * *x;
+                    }
+                    (xs.iter().copied().product::<Scalar4>(), acc)
+                }
+            }), json!({"k": "s", "op": op, "ids": ids.iter().map(|i| i + 1).collect::<Vec<_>>(), "r": t + 1}))
+        } else if c < 116 {
+            let (pn, pd) = phase_of(r);
+            let x = regs[a];
+            depth[t] = depth[a];
+            put(&mut regs, t, guarded(|| {
+                let mut y = x;
+                y.mul_one_plus_phase(Rational64::new(pn, pd));
+                y
+            }), json!({"k": "s", "op": "mul_one_plus_phase", "a": a + 1, "ph": [pn, pd], "r": t + 1}))
+        } else if c < 122 {
+            // the public accessors of the approx flag: set_approx(flag), then approx()
+            let flag = r.random_bool(0.5);
+            let mut y = regs[a];
+            y.set_approx(flag);
+            regs[t] = y;
+            depth[t] = if flag { depth[a] } else { 0 };
+            json!({"k": "s", "op": "set_approx", "a": a + 1, "r": t + 1, "flag": flag, "res": "ok", "out": raw4(&y), "pub_ap": y.approx()})
+        } else if c < 131 {
+            // AbsDiffEq for Scalar4 (epsilon 1e-10 on the complex values); the operands travel in the event: x is a
+            // register or a small scalar, y is x itself, x moved by something around the epsilon, x through floats, or
+            // another register
+            let x = if r.random_bool(0.4) { regs[a] } else { Scalar4::new([r.random_range(-2..3), r.random_range(-2..3), r.random_range(-2..3), r.random_range(-2..3)], r.random_range(-4..2)) };
+            let y = match r.random_range(0..6) {
+                0 => x,
+                1 => regs[b],
+                2 => match guarded(|| Scalar4::from(x.complex_value())) {
+                    Ok(z) => z,
+                    Err(_) => x,
+                },
+                _ => {
+                    let co = [r.random_range(-2..3), r.random_range(-2..3), r.random_range(-2..3), r.random_range(-2..3)];
+                    x + Scalar4::new(co, -r.random_range(28..40))
+                }
+            };
+            match guarded(|| (x.abs_diff_eq(&y, Scalar4::default_epsilon()), y.abs_diff_eq(&x, Scalar4::default_epsilon()))) {
+                Ok((ret, rev)) => json!({"k": "s", "op": "abs_diff_eq4", "x": raw4(&x), "y": raw4(&y), "res": "ok", "ret": ret, "rev": rev}),
+                Err(m) => json!({"k": "s", "op": "abs_diff_eq4", "x": raw4(&x), "y": raw4(&y), "res": "panic", "msg": m}),
+            }
+        } else {
+            // Display / Debug: observation only (the property fixes no text format)
+            match guarded(|| (format!("{}", regs[a]), format!("{:?}", regs[a]))) {
+                Ok((s1, s2)) => json!({"k": "s", "op": "display", "a": a + 1, "res": "ok", "len": s1.len(), "dlen": s2.len()}),
+                Err(m) => json!({"k": "s", "op": "display", "a": a + 1, "res": "panic", "msg": m}),
             }
         };
         tr.emit(ev);
@@ -302,11 +550,13 @@ pub fn record(args: &[String], seed: u64, tr: &mut Tr) -> Value {
     let len: usize = arg_num(args, "--len", 60);
     let mut r = crate::gens::rng(seed);
     let (mut od, mut os) = (0, 0);
-    for _ in 0..nd {
-        od += dyadic_history(&mut r, tr, len);
+    // every sixth history works near the edge of the exponent range in which doubles exist
+    let extreme = |i: usize| if i % 6 == 5 { Some(if i % 12 == 5 { 820 } else { -820 }) } else { None };
+    for i in 0..nd {
+        od += dyadic_history(&mut r, tr, len, extreme(i));
     }
-    for _ in 0..ns {
-        os += scalar_history(&mut r, tr, len);
+    for i in 0..ns {
+        os += scalar_history(&mut r, tr, len, extreme(i));
     }
-    json!({"dyadic_histories": nd, "dyadic_ops": od, "scalar_histories": ns, "scalar_ops": os})
+    json!({"dyadic_histories": nd, "dyadic_ops": od, "scalar_histories": ns, "scalar_ops": os, "extreme_histories": (0..nd).chain(0..ns).filter(|i| i % 6 == 5).count()})
 }
